@@ -40,6 +40,10 @@ case "$1" in
     build 1
     echo "setup ok"
     exit 0 ;;
+  selftest)
+    build 1
+    "$VERIF/selftest.sh" "$SCR/simcheck" "$SCR/repo" "${2:-40}" "$SEED" || { echo "HARNESS-TROUBLE: simulator is not deterministic" >&2; exit 2; }
+    exit 0 ;;
   --replay)
     [ $# -eq 2 ] || usage
     prop="$(python3 -c 'import json,sys; print(json.load(open(sys.argv[1]))["property"])' "$2")" || exit 2
@@ -51,6 +55,10 @@ case "$1" in
     tier="$2"
     [ "$tier" = quick ] || [ "$tier" = thorough ] || usage
     if [ "$1" = C17 ]; then build 1; else build 0; fi
+    rm -f "$VERIF"/replays/"$1"-*.json
+    if [ "$1" = C17 ] && [ "$tier" = thorough ]; then
+      "$VERIF/selftest.sh" "$SCR/simcheck" "$SCR/repo" 40 "$SEED" || { echo "HARNESS-TROUBLE: simulator is not deterministic" >&2; exit 2; }
+    fi
     extra=()
     [ -n "${VERIF_BUDGET:-}" ] && extra+=(-budget "$VERIF_BUDGET")
     [ -n "${VERIF_NO_EVIDENCE:-}" ] && extra+=(-no-evidence)
